@@ -44,12 +44,22 @@ Section Length.
     let desired := nmul O total f in
     if nleb O total desired then path_end pl          (* the repair: at the end of the path *)
     else pap_walk (pl_segments pl) (n0 O) desired.
-  (* stacked fractions; any fraction outside [0,1] -> ValueError; no vertices -> IndexError *)
+  (* stacked fractions; any fraction outside [0,1] -> ValueError; no vertices -> IndexError (v[index] on an empty
+     array, even for no fractions); no fractions -> empty result; no segment (open, one vertex) and at least one
+     fraction -> IndexError (segment_vectors[-1] on an empty array) *)
   Definition point_along_path (pl : polyline F) (fs : list F) : result (list (vec3 F)) :=
     if existsb (fun f => nltb O f (n0 O) || nltb O (n1 O) f) fs then Raise ValueError
     else match pv pl with
          | [] => Raise IndexError
-         | _ => Ok (map (fun f => match point_along_one pl f with Some p => p | None => vzero O end) fs)
+         | _ =>
+             match fs with
+             | [] => Ok []
+             | _ =>
+                 match pl_segments pl with
+                 | [] => Raise IndexError
+                 | _ => Ok (map (fun f => match point_along_one pl f with Some p => p | None => vzero O end) fs)
+                 end
+             end
          end.
 
   (* ---- subdivide_segment(p1, p2, num_points, endpoint) ---- *)
@@ -120,10 +130,14 @@ Section Length.
     | [] => points_at k ips
     | v :: r => points_at k ips ++ v :: insert_multi_from (S k) r ips
     end.
-  (* with_insertions' index bookkeeping exactly as coded: offsets[indices] = 1 (not a count), cumsum *)
-  Definition has_insert (ips : list (nat * vec3 F)) (k : nat) : bool := existsb (fun ip => Nat.eqb (fst ip) k) ips.
-  Definition cum_offsets (n : nat) (ips : list (nat * vec3 F)) : list nat :=
-    map (fun k => length (filter (has_insert ips) (seq 0 (S k)))) (seq 0 n).
+  (* with_insertions' index bookkeeping (as repaired in 9e3d823): an original vertex moves up by the number of
+     points inserted at or before its index (searchsorted side="right"); an inserted point sits at its index plus
+     the number of points that come before it in the stable order by index *)
+  Definition count_le (ips : list (nat * vec3 F)) (k : nat) : nat :=
+    length (filter (fun ip => Nat.leb (fst ip) k) ips).
+  Definition inserted_pos (ips : list (nat * vec3 F)) (j : nat) (q : nat) : nat :=
+    (q + length (filter (fun ip => Nat.ltb (fst ip) q) ips)
+       + length (filter (fun ip => Nat.eqb (fst ip) q) (firstn j ips)))%nat.
   Definition bisect (pl : polyline F) (seg_idx : list nat)
     : result (polyline F * list nat * list nat) :=
     let segs := pl_segments pl in
@@ -132,8 +146,7 @@ Section Length.
     else
       let ips := map (fun i => (edge_end pl i,
                                 match nth_error segs i with Some s => seg_mid s | None => vzero O end)) seg_idx in
-      let cum := cum_offsets n ips in
       Ok (MkPolyline (insert_multi_from 0 (pv pl) ips) (pclosed pl),
-          map (fun k => (k + nth k cum 0)%nat) (seq 0 n),
-          map (fun ip => (fst ip + nth (fst ip) cum 0 - 1)%nat) ips).
+          map (fun k => (k + count_le ips k)%nat) (seq 0 n),
+          map (fun jip => inserted_pos ips (fst jip) (fst (snd jip))) (combine (seq 0 (length ips)) ips)).
 End Length.
